@@ -29,6 +29,7 @@ class Engine(object):
         self.trusted = []
         self.class_hooks = {}
         self.homs = {}
+        self.spec_imports = {"parser": "vsg.parser", "token": "vsg.token", "severity": "vsg.severity"}
         self.lemma_defs = {}
         self.ghosts = {}
         self.hom_templates = {}
@@ -157,7 +158,60 @@ class Engine(object):
         r = Or(*outs)
         return And(guard, r) if guard is not None else r
 
+    def construct_token(self, run, st, cv, args, kwargs, node):
+        """token classes: constructor behaviour derived by probing the real constructor (classes.py):
+        the value is the given string (522 classes) or the class's fixed lexeme (227 classes)"""
+        from .terms import Ne
+
+        ent = self.classinfo().classes[cv.qual]
+        if "error" in ent:
+            raise Unsupported("constructor of %s could not be probed" % cv.qual)
+        ref = run.fresh("new_" + cv.qual.split(".")[-1], REF)
+        st.ghost["#allocated"] = set(st.ghost.get("#allocated", ())) | {str(ref)}
+        for v in list(st.env.values()):
+            if isinstance(v, ObjV):
+                st.assume(Ne(ref, v.term))
+        UFS["cls"] = ([REF], INT)
+        st.assume(Eq(App("cls", (ref,), INT), I(ent["id"])))
+        obj = ObjV(ref, cv.qual)
+        if len(args) > ent["npar"]:
+            raise Unsupported("too many constructor arguments for " + cv.qual)
+        if ent["keeps"]:
+            if args:
+                val = args[0]
+            elif "default" in ent and ent["default"] is not None:
+                val = S(ent["default"])
+            else:
+                # python raises TypeError: missing argument
+                run.check(st, FALSE, "TypeError", node)
+                raise Unsupported("constructor of %s needs a value" % cv.qual)
+        else:
+            if args and ent["npar"] == 0:
+                run.check(st, FALSE, "TypeError", node)
+                raise Unsupported("constructor of %s takes no value" % cv.qual)
+            val = S(ent["fixed"])
+        for f, v in (("value", val), ("code_tags", None), ("indent", NONE), ("iId", NONE)):
+            try:
+                run.field_info(cv.qual, f)
+            except Unsupported:
+                continue
+            if f == "code_tags":
+                from .values import ListV as _L, Type as _T
+                from .terms import Empty
+
+                v = _L(run.new_cell(st, Empty(STR)), _T("str"))
+            run.write_field(st, obj, f, v, node)
+        if "lower_value" in "".join(self.fields):
+            try:
+                run.field_info(cv.qual, "lower_value")
+                run.write_field(st, obj, "lower_value", App("lower", (run.raw(st, val),), STR), node)
+            except Unsupported:
+                pass
+        return obj
+
     def construct_hook(self, run, st, cv, args, kwargs, node):
+        if cv.qual in self.classinfo().classes:
+            return self.construct_token(run, st, cv, args, kwargs, node)
         # generic: allocate a fresh object and run __init__ inline
         ref = run.fresh("new_" + cv.qual.split(".")[-1], REF)
         st.ghost["#allocated"] = set(st.ghost.get("#allocated", ())) | {str(ref)}
